@@ -96,11 +96,23 @@ func C20(c *Ctx) {
 			// callee-saved register discipline of the (assembly) implementation: Multiply and
 			// Square are tiny wrappers that the compiler inlines here, so the assembly is called
 			// from this very frame and BP must read the same before and after
-			bp0 := getBP()
+			// BP is the frame pointer of this frame. Its absolute value legitimately changes when
+			// the runtime moves the goroutine stack (growth inside the callee, shrinking at a GC),
+			// so it is observed relative to the address of a local of this frame, which moves
+			// with it; a routine that clobbers BP changes the difference.
+			var anchor [1]uint64
+			rel := func(bp uintptr) uintptr {
+				if !bpAvailable {
+					return 0 // no frame-pointer register to observe in this build
+				}
+				return bp - uintptr(unsafe.Pointer(&anchor))
+			}
+			bp0 := rel(getBP())
 			m.Multiply(a.e, b.e)
-			bp1 := getBP()
+			bp1 := rel(getBP())
 			sq2.Square(a.e)
-			bp2 := getBP()
+			bp2 := rel(getBP())
+			anchor[0]++
 			if bp0 != bp1 || bp0 != bp2 {
 				c.Fail("frame-pointer register (BP) not preserved across Multiply/Square: a frame-pointer unwind (execution tracer, block/mutex profile) would crash in one build only", map[string]any{"before": bp0, "after-Multiply": bp1, "after-Square": bp2, "build": c.Config})
 			}
